@@ -32,6 +32,13 @@ func runSolverCtx(ctx context.Context, name string, args []string, file string, 
 	err := cmd.Run()
 	secs := time.Since(t0).Seconds()
 	o := out.String()
+	for strings.HasPrefix(o, "WARNING") {
+		if i := strings.Index(o, "\n"); i >= 0 {
+			o = o[i+1:]
+		} else {
+			o = ""
+		}
+	}
 	first := strings.TrimSpace(strings.SplitN(o, "\n", 2)[0])
 	r := solverRun{solver: name + " " + strings.Join(args, " "), out: o, secs: secs}
 	r.solver = strings.TrimSpace(r.solver)
